@@ -14,6 +14,7 @@
  *   fresh <id>                -> core_init, select id, probe  ("op":"fresh")
  *   seq <id1> <id2> ...       -> core_init, then select+probe each in turn ("op":"probe", pos k)
  *   two <idA> <idB> <n>       -> two contexts (core_set), alternate n times, probe after each switch
+ *   reinit <idA> <idB>        -> a caller-provided context used, left with an unfetched error, cleaned and initialised again
  *   thr <idA> <idB> ...       -> (MULTI build) one thread per id sequence element list "a,b,c"
  */
 #include "vh.h"
@@ -123,6 +124,9 @@ static void probe(probe_t *p, int id) {
 	bn_null(k); bn_null(n); bn_null(t); fp_null(a); fp_null(b); fp_null(c); ep_null(g); ep_null(q); ep_null(r);
 	RLC_TRY {
 		bn_new(k); bn_new(n); bn_new(t); fp_new(a); fp_new(b); fp_new(c); ep_new(g); ep_new(q); ep_new(r);
+		/* the sticky error code as the workload finds it (always the FIRST item: the reinit case overwrites it with
+		 * the code read right after core_init) */
+		buf[0] = (uint8_t)core_get()->code; put(p, "code0", buf, 1);
 		core_get()->seeded = 0;
 		rand_seed(seed, 32);
 		/* field: Montgomery constants, conversions, multiplication, inversions, roots, symbols */
@@ -250,16 +254,21 @@ int main(int argc, char **argv) {
 		alarm(300);
 		if (strcmp(op, "ids") == 0) {
 			int first = 1;
-			if (core_init() != RLC_OK) return 2;
 			vh_begin("ids");
 			fputs(",\"ids\":[", vh_out);
-			for (i = 1; i < 200; i++) if (select_id(i)) { fprintf(vh_out, "%s%d", first ? "" : ",", i); first = 0; }
+			/* each id in a context of its own: what can be selected must not depend on what was selected before */
+			for (i = 1; i < 200; i++) {
+				int ok;
+				if (core_init() != RLC_OK) return 2;
+				ok = select_id(i);
+				core_clean();
+				if (ok) { fprintf(vh_out, "%s%d", first ? "" : ",", i); first = 0; }
+			}
 #if FP_PRIME == 256
 			fprintf(vh_out, "%s1000,1001", first ? "" : ",");
 #endif
 			fputs("]", vh_out);
 			vh_end();
-			core_clean();
 		} else if (strcmp(op, "fresh") == 0 || strcmp(op, "seq") == 0) {
 			if (core_init() != RLC_OK) return 2;
 			for (i = 1; i < vh_ntok; i++) {
@@ -283,6 +292,27 @@ int main(int argc, char **argv) {
 				if (i == 0) { core_set(c1); select_id(idb); select_id(ida); }   /* reselect in one context only */
 			}
 			core_set(c2); core_clean();
+			core_set(c1); core_clean();
+			free(c2);
+		}
+		else if (strcmp(op, "reinit") == 0) {
+			/* a caller-provided context: initialise, select, raise an error that is never fetched, clean, initialise
+			 * AGAIN: the second life of the context must be that of a fresh one (code read before anything else) */
+			int ida = atoi(vh_tok[1]), idb = atoi(vh_tok[2]), c0;
+			ctx_t *c1, *c2 = calloc(1, sizeof(ctx_t));
+			if (core_init() != RLC_OK) return 2;
+			c1 = core_get();
+			core_set(c2);
+			if (core_init() != RLC_OK) return 2;
+			select_id(ida);
+			RLC_THROW(ERR_NO_VALID);                     /* outside any block: recorded in the context, not fetched */
+			core_clean();
+			core_set(c2);                                /* (core_clean detaches the context) */
+			if (core_init() != RLC_OK) return 2;
+			c0 = core_get()->code;
+			if (!select_id(idb)) { P.n = 0; P.id = -idb; } else { probe(&P, idb); P.it[0].v[0] = (uint8_t)c0; }
+			emit("probe", &P, 1, 0);
+			core_clean();
 			core_set(c1); core_clean();
 			free(c2);
 		}
